@@ -39,9 +39,9 @@ Proof. exact (@chk_resolve_correct). Qed.
 Print Assumptions c18_oracle_correct.
 
 Theorem c18_instance_laws :
-  porder_laws ver_pcmp /\ porder_laws (fun a b => Some (ver_cmp a b)) /\
+  porder_laws ver_pcmp /\ porder_laws ver_pcmp_nan /\ porder_laws (fun a b => Some (ver_cmp a b)) /\
   (forall a b, ver_cmp a b = CompOpp (ver_cmp b a)).
-Proof. exact (conj ver_pcmp_laws (conj ver_cmp_laws ver_cmp_flip)). Qed.
+Proof. exact (conj ver_pcmp_laws (conj ver_pcmp_nan_laws (conj ver_cmp_laws ver_cmp_flip))). Qed.
 Print Assumptions c18_instance_laws.
 
 (* a checksum string is accepted exactly when it is <name>:<hex>, name compatible, hex of even
